@@ -13,7 +13,9 @@ for d in sorted(glob.glob('/verif/seeded/*/*/')):
     how = []
     for c, r in det.items():
         if r['rc'] == 1 and r['violation_lines'] > 0 and not r['no_failing_input_found']:
-            how.append(f'{c}: VIOLATION with concrete witness')
+            k = (r.get('witnesses') or [{}])[0].get('key') or ''
+            br = '; proof/tie also broken' if r.get('broken') else ''
+            how.append(f'{c}: VIOLATION with concrete witness' + (f' (`{k}`)' if k else '') + br)
         elif r['rc'] == 1:
             how.append(f'{c}: VIOLATION no-failing-input-found')
         else:
@@ -35,7 +37,10 @@ through the `VERIF_REPO` test hook): C01 gained `history_shared` (sibling evalua
 formula), distinct initial values and zeros for free parameters, and `dsl`; C03 gained per-call histories of partial dictionaries,
 the iteration-file pairing and `results_names`; C08 the badly-scaled Hessian family; C10 formulas side by side with cross-formula
 draw types; C11 call histories and multi-type tables; C18 the two-data-set history; C19 overlaps at every pair of positions; C20
-falsy keyword values; C07 non-default tolerances; C04/C09 panel scaling and interrupted bootstraps.
+falsy keyword values; C07 non-default tolerances; C04/C09 panel scaling and interrupted bootstraps; C12 overlapping nests at every
+pair of positions, multi-formula dictionaries with the fault in the first / middle / last formula, database histories, and the
+extraction of the accumulation rule of `BIOGEME._audit`; C15 saved coordinates that are exactly 0.0 / -0.0; C06 cross-nested
+specifications written with full alpha dictionaries (alpha = 0 listed, alternatives outside every nest).
 
 | Change | What | Needs to manifest | Result of the registered check(s) |
 |---|---|---|---|
@@ -43,8 +48,12 @@ falsy keyword values; C07 non-default tolerances; C04/C09 panel scaling and inte
 
 """
 s = open('/verif/DESIGN.md').read()
+tail = ''
 if '## 8. Seeded changes' in s:
+    rest = s[s.index('## 8. Seeded changes'):]
     s = s[:s.index('## 8. Seeded changes')]
-s = s.rstrip('\n') + '\n\n\n' + text
+    if '\n## 9.' in rest:
+        tail = rest[rest.index('\n## 9.'):].lstrip('\n')
+s = s.rstrip('\n') + '\n\n\n' + text + ('\n' + tail if tail else '')
 open('/verif/DESIGN.md', 'w').write(s)
 print('section 8 rewritten:', len(rows), 'seeded changes')
